@@ -61,6 +61,18 @@ def run(ctx):
             ctx.report('nondeterministic-handover', '%s/%s: Lagrange-domain objects created by one thread and transformed by another (never by two at once): %s' % (be, bu, what),
                        {'case': hl, 'scenario': 'handover', 'backend': be, 'build': bu, 'env': 'MALLOC_PERTURB_=165'})
         elif hv: ctx.evaluations += hv[4]
+        # generations of short-lived threads whose first and only work is an FFT product: per-thread FFT state is created and released by
+        # many threads at about the same time (for FFTW also: the planner API, which is not reentrant, must never be entered by two threads)
+        cl = 'churn %d %d %d' % (12 if not thorough else 40, 16, ctx.seed + 31)
+        co = vlib.run_lines(exe, [cl], timeout=3600)[0]; ctx.count((be, bu, 'churn'))
+        cv = ints(co) if not co.startswith('CRASH') and co.strip() else None
+        if cv is None or cv[0] != 0:
+            ctx.report('thread-churn', '%s/%s: %s' % (be, bu, ('generations of 16 short-lived threads doing FFT products: the process died (%s)' % co[:60]) if cv is None else
+                       '%d of %d FFT products computed by short-lived threads differ from the sequential reference' % (cv[0], cv[1])), {'case': cl, 'scenario': 'churn', 'backend': be, 'build': bu})
+        elif cv[2] > 1:
+            ctx.report('fftw-planner-reentered', '%s/%s: %d threads were inside the FFTW planner API (plan creation / destruction, not reentrant) at once, %d overlapping calls over %d thread lifetimes: a data race inside libfftw3' % (
+                       be, bu, cv[2], cv[3], cv[1]), {'case': cl, 'scenario': 'churn', 'backend': be, 'build': bu})
+        else: ctx.evaluations += cv[1]
         for (name, line), o in zip(scen, outs):
             ctx.count((be, bu, name))
             if o.startswith('CRASH') or not o.strip():
